@@ -1159,28 +1159,42 @@ impl<'g, 'r> ProgGen<'g, 'r> {
             }
             3 | 4 => {
                 self.label("while");
+                // the counter update comes last (then no `continue`: it would skip the update)
+                // or first (then `continue` is fine)
+                let update_first = self.g.chance(1, 3);
                 let save_for = fc.in_for;
-                fc.in_for = 0; // no `continue` (it would skip the counter update)
+                fc.in_for = if update_first { 1 } else { 0 };
                 let b = self.body(fc, 3);
                 fc.in_for = save_for;
                 let mut v = match b {
                     Stmt::Block(v) => v,
                     s => vec![s],
                 };
-                v.push(Stmt::Expr(upd));
+                if update_first {
+                    self.label("while-update-first");
+                    v.insert(0, Stmt::Expr(upd));
+                } else {
+                    v.push(Stmt::Expr(upd));
+                }
                 vec![Stmt::Expr(init), Stmt::While(cond, Box::new(Stmt::Block(v)))]
             }
             _ => {
                 self.label("do-while");
+                let update_first = self.g.chance(1, 3);
                 let save_for = fc.in_for;
-                fc.in_for = 0;
+                fc.in_for = if update_first { 1 } else { 0 };
                 let b = self.body(fc, 3);
                 fc.in_for = save_for;
                 let mut v = match b {
                     Stmt::Block(v) => v,
                     s => vec![s],
                 };
-                v.push(Stmt::Expr(upd));
+                if update_first {
+                    self.label("do-while-update-first");
+                    v.insert(0, Stmt::Expr(upd));
+                } else {
+                    v.push(Stmt::Expr(upd));
+                }
                 // do-while runs at least once: start inside the range
                 let init = if up { init } else { Expr::assign(lv.clone(), Expr::lit(n.max(1))) };
                 vec![Stmt::Expr(init), Stmt::DoWhile(Box::new(Stmt::Block(v)), cond)]
@@ -1448,8 +1462,8 @@ impl<'g, 'r> ProgGen<'g, 'r> {
                 vec![self.body_block(fc)]
             }
             6 => {
-                if fc.in_for > 0 && fc.in_switch == 0 && self.g.chance(1, 2) {
-                    self.label("continue");
+                if fc.in_for > 0 && self.g.chance(1, 2) {
+                    self.label(if fc.in_switch > 0 { "continue-inside-switch" } else { "continue" });
                     Self::new_expr_ctx(fc);
                     let c = self.condition(fc, 1);
                     vec![Stmt::If(c, Box::new(Stmt::Continue), None)]
@@ -1561,7 +1575,31 @@ impl<'g, 'r> ProgGen<'g, 'r> {
         let arrs = self.arrays(fc, Some(true), true);
         let px = fc.protected.contains("X");
         let py = fc.protected.contains("Y");
-        match self.g.below(11) {
+        match self.g.below(14) {
+            11 | 12 | 13 if !(px && py) => {
+                // a register mirrors a variable, the variable changes in memory, the register is reloaded
+                let all: Vec<(String, Ty)> = self.visible_scalars(fc, None, true).into_iter().filter(|(n, t)| n != "X" && n != "Y" && *t != Ty::Ptr && !fc.protected.contains(n)).collect();
+                let (v, _) = if all.is_empty() { (a.clone(), Ty::U8) } else { self.g.pick(&all).clone() };
+                let reg = if px || (!py && self.g.chance(1, 2)) { "Y" } else { "X" };
+                let lv = LValue::Var(v.clone());
+                let modify = match self.g.below(6) {
+                    0 => Expr::Assign(Some(BinOp::Shl), lv.clone(), Box::new(Expr::lit(1))),
+                    1 => Expr::Assign(Some(BinOp::Shr), lv.clone(), Box::new(Expr::lit(1))),
+                    2 => Expr::IncDec(true, false, lv.clone()),
+                    3 => Expr::IncDec(false, false, lv.clone()),
+                    4 => Expr::Assign(Some(BinOp::Add), lv.clone(), Box::new(Expr::lit(k + 1))),
+                    _ => Expr::Assign(Some(BinOp::Xor), lv.clone(), Box::new(Expr::lit(0x55))),
+                };
+                let mut out = vec![
+                    Stmt::Expr(Expr::assign(LValue::Var(reg.into()), Expr::var(&v))),
+                    Stmt::Expr(modify),
+                    Stmt::Expr(Expr::assign(LValue::Var(reg.into()), Expr::var(&v))),
+                ];
+                if b != v {
+                    out.push(Stmt::Expr(Expr::assign(LValue::Var(b.clone()), Expr::var(reg))));
+                }
+                out
+            }
             8 | 9 | 10 if !arrs.is_empty() && !(px && py) => {
                 // indexed read, the index register moves, the "same" indexed operand is read again
                 let (ar, _, n) = self.g.pick(&arrs).clone();
